@@ -21,7 +21,7 @@ ASSUMPTIONS = [
     "origin allow-list: wildcard strings from a menu, their compiled patterns (read from the real wildcards2patterns) compared as regular languages with whole-string glob semantics over printable ASCII",
     "proxy CONNECT, web-status/redirect rendering (hyperlink), urllib.parse internals on symbolic text, and arbitrary long garbage are outside the symbolic claim",
 ]
-BOUNDS = {"quick": "server: free key (24 chars), free version (2 digits), 5 single-character token corruptions (free latin-1 octet each: method, HTTP version, Upgrade, Connection, Host port under externalPort) + 2 free octets around the header terminator, 5 headers x {absent, once, twice} x webStatus, every 5-event connection history x maxConnections in {1,2}, 6 wildcard lists x 9 origins + REX inclusion, connection limit, subprotocol menus; client: free status (3 digits), free accept (28 chars), 4 token corruptions, non-UTF-8 octets, foreign subprotocol; request construction for 8 URLs; self-interoperation over 6 option combinations x 3 segmentations; asyncio adapter: 6 units (free version/status digits, free token octet, free header-value octet) x 3 segmentations; every 1-cut segmentation of the handshake for the concrete skeletons",
+BOUNDS = {"quick": "server: free key (24 chars), free version (2 digits), 5 single-character token corruptions (free latin-1 octet each: method, HTTP version, Upgrade, Connection, Host port under externalPort) + 2 free octets around the header terminator, 5 headers x {absent, once, twice} x webStatus, every 5-event connection history x maxConnections in {1,2}, 6 wildcard lists x 9 origins + REX inclusion, connection limit, subprotocol menus; client: free status (3 digits), free accept (28 chars), 4 token corruptions, non-UTF-8 octets, foreign subprotocol; request construction for 8 URLs; self-interoperation over 6 option combinations x 3 segmentations; asyncio adapter: 6 units (free version/status digits, free token octet, free header-value octet) x 3 segmentations; every 1-cut segmentation of the handshake for the concrete skeletons; 15 client URLs incl. percent-encoded reserved characters, sub-delimiters, path parameters, dot and empty segments",
           "thorough": "7-event connection histories, 7 segmentations per interop combination"}
 EXPECT_COVERS = ["aio", "srv:open", "srv:http-error", "srv:incomplete", "cli:open", "cli:failed", "origin:rex", "interop"]
 BUDGET = {"quick": dict(wall_s=300, max_paths=30000, diff_samples=3), "thorough": dict(wall_s=2400)}
